@@ -95,6 +95,8 @@ theorem freshRelE : HRelE (fun _ => True) True Fresh where
     · simp only [gccPend]; rw [h1]
   seq := fun s name exts cargs v => Fresh.of_push (p := seqPend s name exts cargs v) rfl rfl rfl
     ((popPending_spec _ _).2.1.map _)
+  callx := fun s name exts cargs ret => Fresh.of_push (p := callxPend s name exts cargs ret) rfl rfl rfl
+    ((popPending_spec _ _).2.1.map _)
 
 theorem freshRel : HRel (fun _ => True) True Fresh where
   toHRelE := freshRelE
@@ -181,6 +183,8 @@ theorem shapeRelE : HRelE (fun _ => True) True ShapeRel where
     ⟨⟨_, rfl⟩, isHTmp_tmpName _⟩
   seq := fun s name exts cargs v => ShapeRel.of_push (p := seqPend s name exts cargs v) rfl (popPending_spec _ _).2.1
     ⟨⟨_, rfl⟩, isHTmp_tmpName _⟩
+  callx := fun s name exts cargs ret => ShapeRel.of_push (p := callxPend s name exts cargs ret) rfl (popPending_spec _ _).2.1
+    ⟨⟨_, rfl⟩, isHTmp_tmpName _⟩
 
 theorem shapeRel : HRel (fun _ => True) True ShapeRel where
   toHRelE := shapeRelE
@@ -213,6 +217,7 @@ theorem immRelE : HRelE (fun n => isHTmp n = false) True ImmRel where
     have : (gccState s v il).imms = s.imms := (chk_snd s (.setl v il) [] false).2.1
     rw [this] at hx; exact h x hx
   seq := fun s name exts cargs v h => h
+  callx := fun s name exts cargs ret h => h
 
 theorem immRel : HRel (fun n => isHTmp n = false) True ImmRel where
   toHRelE := immRelE
